@@ -38,6 +38,10 @@ struct Mock {
   MAKE_MOCK1(v, void(int));
 };
 
+struct MockN {            // the default, NON-movable kind of mock object (mock id 3 of the scripts)
+  MAKE_MOCK1(f, int(int));
+};
+
 struct Obj {
   Obj() = default;
   Obj(Obj const&) = default;
@@ -51,6 +55,8 @@ using DW = trompeloeil::deathwatched<Obj>;
 
 extern SlotCfg cfg[NSLOT + 1];
 extern std::unique_ptr<Mock> mocks[NMOCK];
+extern std::unique_ptr<MockN> nmock;
+constexpr int NM_ID = 3;
 extern std::unique_ptr<trompeloeil::sequence> seqs[NSEQ + 1];
 extern std::unique_ptr<trompeloeil::expectation> exps[NSLOT + 1];
 extern std::unique_ptr<DW> objs[NOBJ + 1];
